@@ -178,6 +178,14 @@ func setJSON(s []*matcher) obj {
 			o["verif_c05_e"+strconv.Itoa(m.ekind)] = obj{"status": m.status}
 		case 'l':
 			o["verif_c05_l"+strconv.Itoa(m.ekind)] = obj{}
+		case 'c': // what httpcaddyfile makes of `handle_errors 4xx`
+			o["expression"] = fmt.Sprintf("{http.error.status_code} >= %d && {http.error.status_code} <= %d", m.vals[0], m.vals[1])
+		case 'k': // … and of `handle_errors 404 500`
+			var cs []string
+			for _, v := range m.vals {
+				cs = append(cs, strconv.Itoa(v))
+			}
+			o["expression"] = "{http.error.status_code} in [" + strings.Join(cs, ", ") + "]"
 		case 'n':
 			o["not"] = setsJSON(m.sets)
 		}
@@ -267,12 +275,20 @@ func appJSON(rs []*route, hasErrs bool, errs []*route, named []*route) []byte {
 		}
 		srv["named_routes"] = nr
 	}
-	b, err := json.Marshal(obj{"servers": obj{"s": srv}})
+	app := obj{"servers": obj{"s": srv}}
+	if withMetrics {
+		app["metrics"] = obj{}
+	}
+	b, err := json.Marshal(app)
 	if err != nil {
 		panic(err)
 	}
 	return b
 }
+
+// withMetrics makes appJSON switch on the http app's metrics: every handler of the top-level and
+// named routes is then wrapped by the metrics instrumentation (routes.go:wrapMiddleware).
+var withMetrics bool
 
 // ---------------------------------------------------------------- provisioning
 
@@ -351,6 +367,8 @@ func implKind(m any) int {
 		return 8
 	case *LegacyTrue:
 		return 9
+	case *caddyhttp.MatchExpression:
+		return 10
 	}
 	return -1
 }
